@@ -134,7 +134,7 @@ def _ne_input_check(
             f"`weight` shape ({weight.shape}) is different from `input` shape ({input.shape})"
         )
     if num_tasks == 1:
-        if len(input.shape) > 1:
+        if len(input.shape) != 1:
             raise ValueError(
                 f"`num_tasks = 1`, `input` is expected to be one-dimensional tensor, but got shape ({input.shape})."
             )
